@@ -134,6 +134,7 @@ fn configs(prop: &str, tier: Tier) -> Vec<FsCfg> {
                 depth: tier.pick(5, 6),
                 sync_prob: 0.0,
                 block: None,
+                prelude: vec![],
             },
             // directory renames are a known finding (F-FS-3) of the path-keyed tree; they are
             // kept out of the main alphabet (every history containing one diverges) and
@@ -145,11 +146,12 @@ fn configs(prop: &str, tier: Tier) -> Vec<FsCfg> {
                 depth: 3,
                 sync_prob: 0.0,
                 block: None,
+                prelude: vec![],
             },
         ],
         "C07" => {
             let mut v = vec![
-                FsCfg { name: "durable".into(), prop: Prop::C07, letters: c07_letters(tier), depth: tier.pick(6, 7), sync_prob: 0.0, block: None },
+                FsCfg { name: "durable".into(), prop: Prop::C07, letters: c07_letters(tier), depth: tier.pick(6, 7), sync_prob: 0.0, block: None, prelude: vec![] },
                 FsCfg {
                     name: "durable-torn-b1".into(),
                     prop: Prop::C07,
@@ -166,6 +168,7 @@ fn configs(prop: &str, tier: Tier) -> Vec<FsCfg> {
                     depth: tier.pick(7, 8),
                     sync_prob: 0.0,
                     block: Some(1),
+                    prelude: vec![],
                 },
                 FsCfg {
                     name: "durable-bgsync".into(),
@@ -183,8 +186,49 @@ fn configs(prop: &str, tier: Tier) -> Vec<FsCfg> {
                     depth: tier.pick(6, 7),
                     sync_prob: 0.5,
                     block: None,
+                    prelude: vec![],
                 },
             ];
+            // rename onto a name that is already durable (the write-new / fsync / rename-over idiom)
+            v.push(FsCfg {
+                name: "durable-replace".into(),
+                prop: Prop::C07,
+                letters: vec![
+                    Op::Create(0),
+                    Op::WriteAt(0, 0, 0, Front::Std),
+                    Op::SyncAll(0, Front::Std),
+                    Op::SyncDir(3),
+                    Op::RenameF(0, 4),
+                    Op::SyncAll(4, Front::Std),
+                    Op::Crash,
+                ],
+                depth: tier.pick(7, 8),
+                sync_prob: 0.0,
+                block: None,
+                // /b exists durably with contents "Z"
+                prelude: vec![Op::Create(4), Op::WriteAt(4, 0, 1, Front::Std), Op::SyncAll(4, Front::Std), Op::SyncDir(3)],
+            });
+            // a fully durable file is moved to another directory; only some of the two parents
+            // are synced before the crash
+            v.push(FsCfg {
+                name: "durable-cross-directory-move".into(),
+                prop: Prop::C07,
+                letters: vec![Op::RenameF(1, 3), Op::SyncDir(0), Op::SyncDir(1), Op::SyncAll(3, Front::Std), Op::WriteAt(3, 0, 1, Front::Std), Op::Crash],
+                depth: tier.pick(5, 6),
+                sync_prob: 0.0,
+                block: None,
+                // /d and /e exist durably, /d/a holds "xy" with data and entry synced
+                prelude: vec![
+                    Op::Mkdir(0),
+                    Op::Mkdir(1),
+                    Op::SyncDir(3),
+                    Op::Create(1),
+                    Op::WriteAt(1, 0, 0, Front::Std),
+                    Op::SyncAll(1, Front::Std),
+                    Op::SyncDir(0),
+                    Op::SyncDir(1),
+                ],
+            });
             // resizes in both directions around data syncs (shrink-then-grow must zero the gap)
             v.push(FsCfg {
                 name: "durable-resize".into(),
@@ -203,6 +247,7 @@ fn configs(prop: &str, tier: Tier) -> Vec<FsCfg> {
                 depth: tier.pick(8, 9),
                 sync_prob: 0.0,
                 block: None,
+                prelude: vec![],
             });
             // the write-temp / fsync / rename / fsync-dir publish idiom in one directory
             v.push(FsCfg {
@@ -220,6 +265,7 @@ fn configs(prop: &str, tier: Tier) -> Vec<FsCfg> {
                 depth: tier.pick(8, 9),
                 sync_prob: 0.0,
                 block: None,
+                prelude: vec![],
             });
             if tier == Tier::Thorough {
                 v.push(FsCfg {
@@ -237,6 +283,7 @@ fn configs(prop: &str, tier: Tier) -> Vec<FsCfg> {
                     depth: 7,
                     sync_prob: 0.0,
                     block: Some(2),
+                    prelude: vec![],
                 });
             }
             v
